@@ -187,12 +187,13 @@ class MinErrorFlow():
         self.edge_error_vars = {}
         self.edge_sol = {}
 
-        self.w_max = max(
+        # (as a Python float: a numpy integer such as uint8 would wrap around in the product with the number of edges below)
+        self.w_max = float(max(
             [
                 self.G[u][v].get(self.flow_attr, 0)
                 for (u, v) in self.G.edges() 
             ]
-        )
+        ))
         self.ub = self.w_max * self.G.number_of_edges()
 
         self._create_solver()
